@@ -85,20 +85,25 @@ def distLt : Option Nat → Option Nat → Bool
   | some _, none => true
   | none, _ => false
 
+/-- the `dists` dict as a total lookup; wrapped in a structure so that the compiled code builds each updated
+    table once instead of re-running the update on every lookup -/
+structure DTab where
+  get : PyId → Option Nat
+
 structure SP where
-  dist : PyId → Option Nat
+  dist : DTab
   unseen : PyId → Bool
   nUnseen : Int
   current : PyId
 
 /-- body of `for ngb in H.nodes.neighbors(current)` -/
-def relaxOne (unseen : PyId → Bool) (cur : PyId) (d : PyId → Option Nat) (ngb : PyId) : PyId → Option Nat :=
+def relaxOne (unseen : PyId → Bool) (cur : PyId) (d : DTab) (ngb : PyId) : DTab :=
   if unseen ngb then
-    let new := (d cur).map (· + 1)
-    if distLt new (d ngb) then upd d ngb new else d
+    let new := (d.get cur).map (· + 1)
+    if distLt new (d.get ngb) then ⟨upd d.get ngb new⟩ else d
   else d
 
-def relax (h : Net) (st : SP) : PyId → Option Nat :=
+def relax (h : Net) (st : SP) : DTab :=
   (nbrs h st.current).foldl (relaxOne st.unseen st.current) st.dist
 
 /-- `utilities.min_where(dists, is_unseen)` over the dict keys in order -/
@@ -117,12 +122,12 @@ def spLoop (h : Net) : Nat → SP → Option SP
     let d := relax h st
     let u := upd st.unseen st.current false
     let n := st.nUnseen - 1
-    let stop := n == 0 || (minWhere h.nodes d u).isNone
-    let st' : SP := { dist := d, unseen := u, nUnseen := n, current := argMin h.nodes d u st.current }
+    let stop := n == 0 || (minWhere h.nodes d.get u).isNone
+    let st' : SP := { dist := d, unseen := u, nUnseen := n, current := argMin h.nodes d.get u st.current }
     if stop then some st' else spLoop h fuel st'
 
 def spInit (h : Net) (src : PyId) : SP :=
-  { dist := fun n => if n = src then some 0 else none
+  { dist := ⟨fun n => if n = src then some 0 else none⟩
     unseen := fun n => n != src
     nUnseen := (h.nodes.length : Int) - 1
     current := src }
@@ -136,7 +141,7 @@ inductive SPOut where
 def sssp (h : Net) (src : PyId) : SPOut :=
   if src ∈ h.nodes then
     match spLoop h (h.nodes.length + 1) (spInit h src) with
-    | some st => .ok st.dist
+    | some st => .ok st.dist.get
     | none => .fuel
   else .notFound
 
